@@ -59,11 +59,6 @@ class DictArray(StorageBase):
         np_index = np.unravel_index(index, self.shape)
         return np_index in self._dict
 
-    def _internal_mask(self) -> np.ma.MaskedArray:
-        if self.internal_shape:
-            return np.ma.empty(self.internal_shape, dtype=object)
-        return np.ma.masked
-
     def __getitem__(self, key: tuple[int | slice, ...]) -> Any:
         """Return the data associated with the given key."""
         key = normalize_key(key, self.shape, self.internal_shape, self.shape_mask)
@@ -84,12 +79,12 @@ class DictArray(StorageBase):
                         arr = np.asarray(self._dict[external_key])
                         value = arr[internal_key]
                     else:
-                        value = self._internal_mask()[internal_key]
+                        value = np.ma.masked
                 else:  # noqa: PLR5501
                     if external_key in self._dict:
                         value = self._dict[external_key]
                     else:
-                        value = self._internal_mask()
+                        value = np.ma.masked
                 j = np.unravel_index(i, shape)
                 data[j] = value
             new_shape = tuple(
@@ -105,7 +100,7 @@ class DictArray(StorageBase):
         if external_key in self._dict:
             data = self._dict[external_key]
         else:
-            return self._internal_mask()
+            return np.ma.masked
         if internal_key:
             arr = np.asarray(data)
             return arr[internal_key]
